@@ -1,6 +1,15 @@
 import XdslModel.Worklist
 import XdslModel.ScopedDict
 import XdslModel.DisjointSet
+import XdslModel.Sem
+import XdslModel.Dominance
+import XdslModel.PostOrder
+import XdslModel.Liveness
+import XdslModel.AttrValue
+import XdslModel.SymbolTable
+import XdslModel.ArgSpec
+import XdslModel.Constraint
+import XdslModel.Affine
 /-!
 Model registry for the driver: `MODEL <name>` selects a `(state, lineStep)` pair.
 A continuation-passing encoding is used because the state types differ.
@@ -14,6 +23,15 @@ def run? (name : String) : Option Runner :=
   | "worklist" => some fun k => k Worklist.lineStep {}
   | "scoped_dict" => some fun k => k ScopedDict.lineStep [[]]
   | "int_disjoint_set" => some fun k => k DisjointSet.lineStep {}
+  | "sem" => some fun k => k Sem.lineStep {}
+  | "dominance" => some fun k => k Dominance.lineStep ()
+  | "post_order" => some fun k => k PostOrder.lineStep ()
+  | "liveness" => some fun k => k Liveness.lineStep {}
+  | "attr_value" => some fun k => k AttrValue.lineStep {}
+  | "symbol_table" => some fun k => k SymbolTable.lineStep none
+  | "arg_spec" => some fun k => k ArgSpec.lineStep ()
+  | "constraint" => some fun k => k Constraint.lineStep []
+  | "affine" => some fun k => k Affine.lineStep ()
   | _ => none
 
 end Xdsl.Registry
